@@ -28,7 +28,8 @@ WORLD0 = {"lan": [[1, 0, 0, 2, 2], [2, 2, 0, 4, 2], [3, 0, 2, 2, 4]],
                   {"id": 12, "kind": "static", "shape": ["disc", 1, 0], "t0": 0, "poses": [[2, 2, 0]]},
                   {"id": 13, "kind": "dynamic", "shape": ["rect", 1, 1], "t0": 0, "poses": [[2, 2, 0], [4, 2, 0], [6, 2, 1]]},
                   {"id": 14, "kind": "dynamic", "shape": ["poly", 2, 2], "t0": 1, "poses": [[2, 4, 0]]},
-                  {"id": 15, "kind": "dynamic", "shape": ["rect", 3, 1], "t0": 0, "poses": [[2, 2, 0], [2, 2, 1], [2, 2, 0]]}]}
+                  {"id": 15, "kind": "dynamic", "shape": ["rect", 3, 1], "t0": 0, "poses": [[2, 2, 0], [2, 2, 1], [2, 2, 0]]},
+                  {"id": 16, "kind": "dynamic", "shape": ["roff", 1, 1], "t0": 0, "poses": [[3, 2, 0], [3, 2, 1]]}]}
 
 
 def model_check(ctx):
@@ -54,7 +55,7 @@ def cases(ctx):
     for i, w in enumerate(walks):
         cs.append({"src": "tlc", "world": WORLD0, "ops": [[a[0], a[1]] for a in w], "reuse": 1 if i % 3 else 0})
     # reader routes on every subset of the model world's obstacles
-    for mask in range(1, 32):
+    for mask in range(1, 64, 3):
         ids = [o["id"] for k, o in enumerate(WORLD0["obs"]) if mask >> k & 1]
         for fmt in ("open_xml", "open_pb"):
             cs.append({"src": "reader", "world": WORLD0, "ops": [["add", i] for i in ids] + [[fmt, 0]], "reuse": 0})
@@ -79,7 +80,7 @@ def _random_case(seed, big=0):
     for k in range(r.randint(1, 6 if big else 4)):
         kind = r.choice(["static", "dynamic", "dynamic"])
         shape = r.choice([["rect", 2, 1], ["rect", 1, 1], ["rect", 3, 1], ["poly", 2, 2], ["poly", 1, 3], ["disc", 1, 0],
-                          ["disc", 2, 0]])
+                          ["disc", 2, 0], ["roff", 1, 1], ["roff", 2, 1]])
         n = 1 if kind == "static" else r.randint(1, 4)
         poses = [[r.randint(-2, 14), r.randint(-2, 10), r.randint(0, 3)] for _ in range(n)]
         for i in range(1, n):                 # standing still / turning on the spot: same position, maybe another heading
@@ -119,6 +120,8 @@ def _shape(sh):
     from commonroad.geometry.shape import Circle, Polygon, Rectangle
     if sh[0] == "rect":
         return Rectangle(float(sh[1]), float(sh[2]))
+    if sh[0] == "roff":                                    # the shape's own centre is not the obstacle's reference point
+        return Rectangle(float(sh[1]), float(sh[2]), np.array([1.0, 0.0]))
     if sh[0] == "disc":
         return Circle(float(sh[1]))
     l2, w2 = sh[1] / 2.0, sh[2] / 2.0
